@@ -2,7 +2,7 @@
 
 On every run of the check, `run(chk, arim, rng, quick)`
 
- 1. generates configurations (the fixed examples of .work/prover_C20_TIE.md first, then random ones: mostly valid, plus one
+ 1. generates configurations (the fixed examples of notes/prover_C20_TIE.md first, then random ones: mostly valid, plus one
     stream per error branch of the model; key orders shuffled, None / absent entries, int / float / str / list / bool leaves);
  2. runs the REAL library on them (native.material_attenuation_from_conf, material_from_conf, examination_object_from_conf,
     block_in_immersion_from_conf, block_in_contact_from_conf, probe_from_conf, grid_from_conf, frame_from_conf on real MAT files,
@@ -1379,7 +1379,7 @@ class Tie:
                   "library_answer": self.lib_answer(out if out[0] != "beyond" else ("err", 99, str(out[1])), obs)},
                  f"load_frame Z (arr_of {cZ(view)} {cZ(rows)} {cZ(cols)} {cbool(forder)} {zlist(mem)}) {qlist(time)} {zlist(tx)} {zlist(rx)}")
 
-    # -- the fixed examples of .work/prover_C20_TIE.md -------------------------------------------------------------------
+    # -- the fixed examples of notes/prover_C20_TIE.md -------------------------------------------------------------------
     def fixed(self):
         F = lambda n: n / 8.0  # noqa: E731
         M = {"longitudinal_vel": F(8)}
